@@ -30,9 +30,25 @@ package ctrlflow
 //@     invariant _i >= 2 && !constant.Compare(val1, token.NEQ, val2) ==> len(candidates) >= 1
 //@ end
 
+//@ func setBlockParent
+//@   property C11
+//@   trusted sets the unexported field parent of one basic block through reflect and unsafe; assumed to write nothing else
+//@   assigns nothing
+//@ end
+
+//@ func setBlock
+//@   property C11
+//@   trusted sets the unexported field block of one instruction through reflect and unsafe; assumed to write nothing else
+//@   assigns nothing
+//@ end
+
 //@ func applySplitting
 //@   property C11
 //@   requires ssaFunc != nil
+//@   ensures @first-half-jumps-only-to-the-second-half: r0 ==> len(targetBlock.Succs) == 1 && targetBlock.Succs[0] == newBlock
+//@   ensures @second-half-is-registered-last: r0 ==> len(ssaFunc.Blocks) == old(len(ssaFunc.Blocks)) + 1 && ssaFunc.Blocks[len(ssaFunc.Blocks)-1] == newBlock
+//@   loop 2
+//@     invariant @predecessor-lists-of-the-original-successors-are-rewritten: ref(targetBlock.Succs) == ref(newBlock.Succs) && off(targetBlock.Succs) == off(newBlock.Succs) && len(targetBlock.Succs) == len(newBlock.Succs)
 //@ end
 
 //@ func addJunkBlocks
